@@ -5,6 +5,7 @@ One driver TU per batch; protocol on stdin, one case per line:
 ops: dec           decode, then report size observations, re-encodings, print text
      overfill      decode, push every limited vector past its limit, report
      clear         decode, clear arrays / reset optionals, report
+     fresh         no decode: report on the default-constructed object
 stdout, per case:  BEGIN <id>   then   R <id> k=v ...
 """
 import os
@@ -170,7 +171,8 @@ static void run(const vt_t& vt, const char* id, const char* endian, const char* 
     try
     {
         g_alloc_total = 0; g_counting = true;
-        bool ok = vt.decode[e](x, buf, in.size());
+        // "fresh": the default-constructed object, no decode (values a decoder cannot deliver still get their sizes checked)
+        bool ok = !strcmp(op, "fresh") ? true : vt.decode[e](x, buf, in.size());
         g_counting = false;
         printf(" ok=%d alloc=%zu", int(ok), g_alloc_total);
         if (ok)
